@@ -224,6 +224,7 @@ int32_t jls_twr_open(struct jls_twr_s ** instance, const char * path) {
     if (!self->bk) {
         JLS_LOGE("jls_bkt_initialize failed");
         jls_wr_close(wr);
+        free(self);
         return JLS_ERROR_NOT_ENOUGH_MEMORY;
     }
 
